@@ -277,6 +277,11 @@ func defaultValueForTypeRec(schemas ast.Schemas, typeDef ast.Type, importModule 
 			return defaultValueForTypeRec(schemas, aliased, importModule, defaultsOverrides, following)
 		}
 
+		// the reference carries a default of its own for a named scalar, list or map: `name: #Name | *"bob"`
+		if found && typeDef.Default != nil && referredObj.Type.IsAnyOf(ast.KindScalar, ast.KindArray, ast.KindMap) && !referredObj.Type.IsConcreteScalar() {
+			return typeDef.Default
+		}
+
 		var extraDefaults []string
 
 		if defaultsOverrides != nil {
